@@ -47,11 +47,15 @@ pub trait ConnectionState {
     ///
     /// Return the error as an Err variant if it is set in order to allow using ? in the calling function
     fn get_conn_error(&self) -> Option<ErrorOrigin> {
+        #[cfg(feature = "verif-hooks")]
+        verif::yield_point("error.get");
         self.shared_state().connection_error.get().cloned()
     }
 
     /// tries to set the connection error
     fn set_conn_error(&self, error: ErrorOrigin) -> ErrorOrigin {
+        #[cfg(feature = "verif-hooks")]
+        verif::yield_point("error.store");
         let err = self
             .shared_state()
             .connection_error
@@ -62,6 +66,8 @@ pub trait ConnectionState {
     /// set the connection error and wake the connection
     fn set_conn_error_and_wake<T: Into<ErrorOrigin>>(&self, error: T) -> ErrorOrigin {
         let err = self.set_conn_error(error.into());
+        #[cfg(feature = "verif-hooks")]
+        verif::yield_point("waker.wake");
         self.waker().wake();
         err
     }
@@ -99,5 +105,30 @@ pub trait ConnectionState {
     /// Returns the waker for the connection
     fn waker(&self) -> &AtomicWaker {
         &self.shared_state().waker
+    }
+}
+
+/// Pre-emption points for an external verification harness. Compiled only with the
+/// `verif-hooks` feature; a no-op unless the current thread installed a callback.
+#[cfg(feature = "verif-hooks")]
+pub mod verif {
+    use std::cell::RefCell;
+
+    thread_local! {
+        static HOOK: RefCell<Option<Box<dyn Fn(&'static str)>>> = const { RefCell::new(None) };
+    }
+
+    /// Install (or remove) the callback of the current thread
+    pub fn set_hook(hook: Option<Box<dyn Fn(&'static str)>>) {
+        HOOK.with(|h| *h.borrow_mut() = hook);
+    }
+
+    /// Called immediately before a shared-state operation of the connection error path
+    pub fn yield_point(name: &'static str) {
+        HOOK.with(|h| {
+            if let Some(f) = h.borrow().as_ref() {
+                f(name)
+            }
+        });
     }
 }
